@@ -251,7 +251,7 @@ def validate_trace(trace_module, events, tag, shards=1, timeout=900, cfg=None):
                 raise ToolError("trace spec %s consumed %s of %d events" % (trace_module, body, n))
             idxs = body.get("bad", [])
             LAST_DRIFT += body.get("drift", 0)
-            for key in ("extras", "seen", "planted", "reported"):
+            for key in ("extras", "seen", "planted", "reported", "plantedT", "reportedT"):
                 if key in body:
                     LAST_EXTRA[key] = LAST_EXTRA.get(key, 0) + body[key]
             bad += [off + x - 1 for x in idxs]
